@@ -627,12 +627,18 @@ class Controller:
             case ll.CisReq():
                 self.on_le_cis_request(connection, packet.cig_id, packet.cis_id)
             case ll.CisRsp():
-                self.on_le_cis_established(packet.cig_id, packet.cis_id)
+                self.on_le_cis_established(
+                    packet.cig_id, packet.cis_id, acl_connection=connection
+                )
                 connection.send_ll_control_pdu(ll.CisInd(packet.cig_id, packet.cis_id))
             case ll.CisInd():
-                self.on_le_cis_established(packet.cig_id, packet.cis_id)
+                self.on_le_cis_established(
+                    packet.cig_id, packet.cis_id, acl_connection=connection
+                )
             case ll.CisTerminateInd():
-                self.on_le_cis_disconnected(packet.cig_id, packet.cis_id)
+                self.on_le_cis_disconnected(
+                    packet.cig_id, packet.cis_id, acl_connection=connection
+                )
             case ll.EncReq():
                 self.on_le_encrypted(connection)
             case ll.FeatureReq() | ll.PeripheralFeatureReq():
@@ -738,10 +744,14 @@ class Controller:
             if cis_link.acl_connection is connection
         ]:
             if cis_link.established:
-                self.on_le_cis_disconnected(cis_link.cig_id, cis_link.cis_id, reason)
+                self.on_le_cis_disconnected(
+                    cis_link.cig_id, cis_link.cis_id, reason, acl_connection=connection
+                )
             elif cis_link.handle in self.central_cis_links:
                 # Requested with LE Create CIS, will never be established
-                self.on_le_cis_established(cis_link.cig_id, cis_link.cis_id, reason)
+                self.on_le_cis_established(
+                    cis_link.cig_id, cis_link.cis_id, reason, acl_connection=connection
+                )
                 cis_link.acl_connection = None
             else:
                 # Request not answered by the host yet
@@ -982,18 +992,26 @@ class Controller:
         )
 
     def on_le_cis_established(
-        self, cig_id: int, cis_id: int, status: int = hci.HCI_ErrorCode.SUCCESS
+        self,
+        cig_id: int,
+        cis_id: int,
+        status: int = hci.HCI_ErrorCode.SUCCESS,
+        acl_connection: Connection | None = None,
     ) -> None:
         '''
         Called when an incoming CIS established (or failed to be established).
         '''
 
+        # CIG and CIS identifiers are chosen by each central on its own: only together
+        # with the ACL connection do they name a CIS.
         cis_link = next(
             cis_link
             for cis_link in itertools.chain(
                 self.central_cis_links.values(), self.peripheral_cis_links.values()
             )
-            if cis_link.cis_id == cis_id and cis_link.cig_id == cig_id
+            if cis_link.cis_id == cis_id
+            and cis_link.cig_id == cig_id
+            and (acl_connection is None or cis_link.acl_connection is acl_connection)
         )
         cis_link.established = status == hci.HCI_ErrorCode.SUCCESS
 
@@ -1024,6 +1042,7 @@ class Controller:
         cig_id: int,
         cis_id: int,
         reason: int = hci.HCI_ErrorCode.REMOTE_USER_TERMINATED_CONNECTION_ERROR,
+        acl_connection: Connection | None = None,
     ) -> None:
         '''
         Called when a CIS disconnected.
@@ -1033,7 +1052,12 @@ class Controller:
             (
                 cis_link
                 for cis_link in self.peripheral_cis_links.values()
-                if cis_link.cis_id == cis_id and cis_link.cig_id == cig_id
+                if cis_link.cis_id == cis_id
+                and cis_link.cig_id == cig_id
+                and (
+                    acl_connection is None
+                    or cis_link.acl_connection is acl_connection
+                )
             ),
             None,
         ):
@@ -1043,7 +1067,12 @@ class Controller:
             (
                 cis_link
                 for cis_link in self.central_cis_links.values()
-                if cis_link.cis_id == cis_id and cis_link.cig_id == cig_id
+                if cis_link.cis_id == cis_id
+                and cis_link.cig_id == cig_id
+                and (
+                    acl_connection is None
+                    or cis_link.acl_connection is acl_connection
+                )
             ),
             None,
         ):
@@ -1562,7 +1591,11 @@ class Controller:
                         cis_link.cig_id, cis_link.cis_id, command.reason
                     ),
                 )
-                self.on_le_cis_disconnected(cis_link.cig_id, cis_link.cis_id)
+                self.on_le_cis_disconnected(
+                    cis_link.cig_id,
+                    cis_link.cis_id,
+                    acl_connection=cis_link.acl_connection,
+                )
             # Spec requires handle to be kept after disconnection.
 
         return None
